@@ -58,6 +58,8 @@ FIXED = {
             "m4": _m(["c", "K2"], ["leaf"]),
             "mx": _m(["c", "KX"], ["next"]),
             "mbad": _m(["c", "KX"], ["bad_next"]),
+            "mbadk": {"params": [["z0", "pos", ["c", "KX"], False], ["a0", "kw", ["o"], False]],
+                      "prio": 0, "body": ["leaf"]},
         }, "meta": {"min_ar": 1, "max_ar": 1, "flavour": ["cls"], "has_kw": False, "mixed": False}},
         "regs": [["m0"], ["m1"], ["m2"], ["m3"], ["m4"]],
         "corpus": [{"args": [["n", "K1", 0, []]]}, {"args": [["n", "K3", 1, [["n", "K2", 0, []]]]]},
@@ -74,6 +76,8 @@ FIXED = {
             "m4": _m(["ph", "K0"], ["fnext"]),
             "mx": _m(["c", "KX"], ["leaf"]),
             "mbad": _m(["c", "KX"], ["bad_next"]),
+            "mbadk": {"params": [["z0", "pos", ["c", "KX"], False], ["a0", "kw", ["o"], False]],
+                      "prio": 0, "body": ["leaf"]},
         }, "meta": {"min_ar": 1, "max_ar": 1, "flavour": ["cls"], "has_kw": False, "mixed": False}},
         "regs": [["m0"], ["m1"], ["m2"], ["m3"], ["m4"]],
         "corpus": [{"args": [["n", "K1", 0, []]]}, {"args": [["n", "K1", 1, []]]},
@@ -89,6 +93,7 @@ FIXED = {
             "m4": {"params": [["a0", "pos", ["c", "K0"], False]], "prio": 0, "body": ["leaf"]},
             "mx": {"params": [["a0", "pos", ["c", "KX"], False], ["a1", "pos", ["o"], False]], "prio": 0, "body": ["next"]},
             "mbad": {"params": [["a0", "pos", ["c", "KX"], False], ["a1", "pos", ["o"], False]], "prio": 0, "body": ["bad_next"]},
+            "mbadk": {"params": [["a1", "pos", ["c", "KX"], False], ["a0", "pos", ["o"], False]], "prio": 0, "body": ["leaf"]},
         }, "meta": {"min_ar": 1, "max_ar": 2, "flavour": ["cls", "cls"], "has_kw": False, "mixed": False}},
         "regs": [["m0"], ["m1"], ["m2"], ["m3"], ["m4"]],
         "corpus": [{"args": [["n", "K1", 0, []], ["n", "K2", 0, []]]},
@@ -101,7 +106,10 @@ FIXED = {
 
 TARGET_KINDS = ["first_call", "first_resolve", "miss_call", "register",
                 "unregister", "replace", "invalid_first", "invalid_rebuild", "retry_after_invalid",
-                "rebuild_after_fix"]
+                "rebuild_after_fix",
+                # the same with a method that is rejected by argument analysis (conflicting names)
+                # instead of while it is being adapted
+                "invalidk_first", "invalidk_rebuild"]
 
 
 def fixed_family(name, tkind):
@@ -135,6 +143,9 @@ def make_family(spec, regs, corpus, tkind, label, pos=0):
     c0 = corpus[0]
     other = pick_other(corpus, c0)
     extra, bad = "mx", "mbad"
+    if tkind.startswith("invalidk_"):
+        bad = "mbadk" if "mbadk" in spec["methods"] else "mbad"
+        tkind = tkind.replace("invalidk_", "invalid_")
     if "mtop" not in spec["methods"]:
         # a valid, applicable, high-priority catch-all: registering it visibly changes most outcomes
         proto = spec["methods"][regs[0][0]]
@@ -223,6 +234,10 @@ def seeded_family(seed, index):
     else:
         bbody = ["bad_next"]
     spec["methods"]["mbad"] = {"params": bparams, "prio": 0, "body": bbody}
+    kparams = json.loads(json.dumps(params))
+    kparams.append(["a0", "kw", ["o"], False])
+    kparams[0][0] = "z0"
+    spec["methods"]["mbadk"] = {"params": kparams, "prio": 0, "body": ["leaf"]}
     n = rng.randint(2, len(mids))
     regs = [[m] for m in rng.sample(mids, n)]
     corpus = gen.gen_corpus(rng, spec, FEAT)
@@ -477,7 +492,8 @@ def jobs(tier, seed):
         # plus a 1-in-8 sample of the crash points of 40 seeded families
         for name in FIXED:
             for tk in TARGET_KINDS:
-                if name == "multi" and tk not in ("first_call", "miss_call", "register", "invalid_first"):
+                if name == "multi" and tk not in ("first_call", "miss_call", "register", "invalid_first",
+                                                    "invalidk_rebuild"):
                     continue
                 if name != "chain" and tk == "first_resolve":
                     continue
